@@ -115,6 +115,7 @@ func c08Case(t *core.T, big bool) {
 		}
 		t.Violate(sig, msg, w)
 	}
+	bigSpendBlocks := 0
 	// history
 	steps := t.R.Range(12, 35)
 	for i := 0; i < steps; i++ {
@@ -154,6 +155,41 @@ func c08Case(t *core.T, big bool) {
 			wd.W.Deliver(b)
 		}
 		wd.Logf("(%d blocks with 200 payments each to the wallet to be removed)", nblk)
+		// half of those coins are spent again (every second output of every fan-out coinbase, 100 inputs
+		// per transaction): a removal round that stops at its limit is then as likely to stop on a spent
+		// coin - with a debit and a spender record - as on an unspent one
+		for i := 0; i < int(cfg.Maturity)+1; i++ {
+			b := wd.N.NewBlock(wd.N.Tip(), []*wire.MsgTx{sim.Coinbase(wd.N.Height()+1, t.R.Uint64(), []*wire.TxOut{wire.NewTxOut(1, sim.P2WSH(str))})})
+			if err := wd.N.Extend(b); err != nil {
+				t.Fatalf("extend: %v", err)
+			}
+			wd.W.Deliver(b)
+		}
+		bestNow := wd.N.BestChain()
+		spendBlocks := 0
+		for _, fb := range bestNow {
+			cbt := fb.Msg.Transactions[0]
+			if len(cbt.TxOut) != 201 {
+				continue
+			}
+			h := cbt.TxHash()
+			var ins []wire.OutPoint
+			var sum int64
+			for i := 1; i <= 200; i += 2 {
+				ins = append(ins, wire.OutPoint{Hash: h, Index: uint32(i)})
+				sum += cbt.TxOut[i].Value
+			}
+			sp := sim.Spend(ins, nil, []*wire.TxOut{wire.NewTxOut(sum-1000, sim.P2WSH(str))}, t.R.Uint64()|1)
+			cb := sim.Coinbase(wd.N.Height()+1, t.R.Uint64(), []*wire.TxOut{wire.NewTxOut(1, sim.P2WSH(str))})
+			b := wd.N.NewBlock(wd.N.Tip(), []*wire.MsgTx{cb, sp})
+			if err := wd.N.Extend(b); err != nil {
+				t.Fatalf("extend (spend block): %v", err)
+			}
+			wd.W.Deliver(b)
+			spendBlocks++
+		}
+		bigSpendBlocks = spendBlocks
+		wd.Logf("(%d blocks each spending 100 of those coins)", spendBlocks)
 	}
 	// a few pending transactions (some touching the victim, some shared)
 	if !wd.Settle() {
@@ -352,6 +388,27 @@ func c08Case(t *core.T, big bool) {
 	if !wd.Settle() {
 		t.Inconclusive("handler not idle")
 		return
+	}
+	// big cases: one deep reorganisation that takes half of the blocks spending the removed wallet's
+	// coins off the chain again (whatever the removal left behind for them must not stop the follower)
+	if big && bigSpendBlocks > 2 {
+		d := bigSpendBlocks/2 + t.R.Range(0, 3)
+		nb, _, err := wd.Fork(d, d+1, 0)
+		if err != nil {
+			t.Fatalf("fork: %v", err)
+		}
+		if nb != nil {
+			wd.W.Deliver(nb)
+			wd.Logf("(deep reorg after the removal of the big wallet)")
+			t.Count("deep_reorgs_after_big_removal", 1)
+		}
+		if b, err := wd.Extend(1); err == nil {
+			wd.W.Deliver(b)
+		}
+		if !wd.Settle() {
+			t.Inconclusive("handler not idle after the deep reorganisation")
+			return
+		}
 	}
 	// the chain keeps moving after the removal: reorganisations that disconnect blocks from
 	// before it (transactions that paid or spent both the removed wallet and a survivor)
